@@ -331,6 +331,13 @@ fn process_tcp_packet(
     {
         http_flows.remove(&flow_key);
     }
+    // The same holds when the earlier connection ran the other way round on these ports (its
+    // server now opens a connection to its client): a SYN without ACK is never sent by the
+    // server of a connection, and the stale flow would take the new client's packets for
+    // server data
+    if opens_connection && http_flows.contains_key(&reversed_key) {
+        http_flows.remove(&reversed_key);
+    }
 
     let (tcp_flow, is_client) = {
         if let Some(flow) = http_flows.get_mut(&flow_key) {
